@@ -12,6 +12,7 @@ from .. import core
 
 LEAN_TARGETS = ["SqVerif.Props.C17"]
 PROPS_FILE = "SqVerif/Props/C17.lean"
+DRIVE_TARGETS = ["SqVerif.Drive.Topo"]
 TRUSTED = [
     "model Topo.lean hand-written from network.py:204-319; tied by differential execution (this check)",
     "networkx tree generator: output recorded and checked by the verified isTreeB on every call",
